@@ -93,6 +93,7 @@ RepairedStep(k) ==
                  ELSE /\ hw' = hw2 /\ cur' = req /\ lastOk' = TRUE /\ UNCHANGED crashed
 
 Grow(k) == /\ ~crashed
+           /\ k <= maxU - cur + 1
            /\ CASE Variant = "req" -> ReqStep(k)
                 [] Variant = "literal" -> LiteralStep(k)
                 [] Variant = "repaired" -> RepairedStep(k)
@@ -100,7 +101,7 @@ Grow(k) == /\ ~crashed
            /\ UNCHANGED <<tp, ppb, heads, maxU>>
 
 \* all growth steps, including one that exceeds the maximum
-Next == \E k \in 0..(maxU - cur + 1) : Grow(k)
+Next == \E k \in 0..(MaxPages * UPP + 1) : Grow(k)
 Spec == Init /\ [][Next]_vars
 \* lastOk/lastK only record the last call for the action properties; no action reads them
 View == <<tp, ppb, heads, maxU, cur, hw, crashed>>
